@@ -42,7 +42,8 @@ type fakeSvc struct {
 	schema.ImmuServiceClient // every method not overridden panics (nil): the harness would notice
 	db                       database.DB
 	signer                   server.StateSigner
-	alter                    func(m proto.Message) // applied to the first response of a client call
+	forge                    func(in *schema.VerifiableGetRequest) *schema.VerifiableEntry // malicious server (attack scenario)
+	alter                    func(m proto.Message)                                         // applied to the first response of a client call
 	armed                    bool
 	honest                   proto.Message // the unaltered first response (for alteration enumeration)
 	cache                    map[string]proto.Message
@@ -90,6 +91,11 @@ func (f *fakeSvc) once(method string, req proto.Message, do func() (proto.Messag
 }
 
 func (f *fakeSvc) VerifiableGet(ctx context.Context, in *schema.VerifiableGetRequest, _ ...grpc.CallOption) (*schema.VerifiableEntry, error) {
+	if f.forge != nil {
+		if r := f.forge(in); r != nil {
+			return f.wire(r).(*schema.VerifiableEntry), nil
+		}
+	}
 	r, err := f.db.VerifiableGet(ctx, in)
 	if err != nil {
 		return nil, err
@@ -178,6 +184,8 @@ type pstep struct {
 	idx int                 // list index (-1: none)
 	key protoreflect.MapKey // map key (valid when fd.IsMap())
 }
+
+type H32 = [sha256.Size]byte
 
 type pAlt struct {
 	name string
@@ -498,6 +506,9 @@ func (h *dbHist) checkEntry(reqKey []byte, e *schema.Entry) string {
 		if !bytes.Equal(e.Key, reqKey) {
 			return fmt.Sprintf("returned key %q for requested key %q", e.Key, reqKey)
 		}
+		if e.Metadata != nil && int(e.Tx) <= h.n && e.Tx > 0 && h.hdr[e.Tx].Version == 0 && h.has(e.Tx, database.EncodeEntrySpec(e.Key, nil, e.Value)) {
+			return fmt.Sprintf("header-v0: returned metadata %v for (key %q, tx %d); the transaction has header version 0, whose entry digest does not cover metadata (the history has none)", e.Metadata, e.Key, e.Tx)
+		}
 		if !h.has(e.Tx, database.EncodeEntrySpec(e.Key, mdOf(e.Metadata), e.Value)) {
 			return fmt.Sprintf("returned entry (key %q, value %q, metadata %v) is not an entry of tx %d", e.Key, e.Value, e.Metadata, e.Tx)
 		}
@@ -506,6 +517,9 @@ func (h *dbHist) checkEntry(reqKey []byte, e *schema.Entry) string {
 	r := e.ReferencedBy
 	if !bytes.Equal(r.Key, reqKey) {
 		return fmt.Sprintf("returned reference key %q for requested key %q", r.Key, reqKey)
+	}
+	if r.Metadata != nil && int(r.Tx) <= h.n && r.Tx > 0 && h.hdr[r.Tx].Version == 0 && h.has(r.Tx, database.EncodeReference(r.Key, nil, e.Key, r.AtTx)) {
+		return fmt.Sprintf("header-v0: returned metadata %v for reference %q of tx %d; header version 0 does not cover metadata", r.Metadata, r.Key, r.Tx)
 	}
 	if !h.has(r.Tx, database.EncodeReference(r.Key, mdOf(r.Metadata), e.Key, r.AtTx)) {
 		return fmt.Sprintf("returned reference (%q -> %q at %d, metadata %v) is not an entry of tx %d", r.Key, e.Key, r.AtTx, r.Metadata, r.Tx)
@@ -678,8 +692,7 @@ func (h *dbHist) explore(calls []call, maxS int, mode string) {
 				c.AddEvals(1)
 				if pn := lib.Catch(func() { out, bad, err = cl.run(ctx, h) }); pn != "" {
 					h.stats["client_panics"]++
-					first := strings.SplitN(pn, "\n", 2)[0]
-					h.stats["panic: "+first]++
+					panicKinds[strings.SplitN(pn, "\n", 2)[0]] = true
 					continue
 				}
 				if err != nil {
@@ -709,6 +722,8 @@ func kindOf(bad string) string {
 	switch {
 	case strings.HasPrefix(bad, "the client stored state"):
 		return "stored-state"
+	case strings.HasPrefix(bad, "header-v0"):
+		return "metadata-under-header-v0"
 	case strings.HasPrefix(bad, "via-reference"):
 		return "value-behind-reference"
 	case strings.HasPrefix(bad, "returned key") || strings.HasPrefix(bad, "returned reference key"):
@@ -780,10 +795,99 @@ func runClient() {
 			must(err)
 		}
 	})
+	attackDemo()
 	h.explore([]call{rowCall(1, "z", "y", true), rowCall(2, "y", "x", true), rowCall(1, "y", "z", false), rowCall(2, "x", "y", false), txCall(2), txCall(4)}, h.n, "nosig")
 	h.report()
 	h.close()
 }
+
+// attackDemo: end-to-end reproduction, with the real client, of what the store-level part reports as
+// "accepts-fork ... case=src=tgtBl": a server that answers from material whose binary-linking tree holds a rewritten
+// transaction k makes ONE client session verify two different values for (key, tx k).
+func attackDemo() {
+	const k = 3
+	h := newDBHist("attack", 1, false, func(ctx context.Context, db database.DB) {
+		for i, kv := range [][2]string{{"a", "x"}, {"b", "y"}, {"a", "secret"}, {"c", "1"}, {"d", "2"}} {
+			_, err := db.Set(ctx, &schema.SetRequest{KVs: []*schema.KeyValue{{Key: []byte(kv[0]), Value: []byte(kv[1])}}})
+			must(err)
+			_ = i
+		}
+	})
+	defer h.close()
+	ctx := context.Background()
+	keys := []string{"", "a", "b", "a", "c", "d"}
+	// the adversary's material: H = the real history; G = tx k rewritten; TH = chain of H, tree leaf k of G
+	H := &World{name: "H", n: 5, real: true}
+	H.hdr, H.alh, H.inner, H.leaf = make([]*store.TxHeader, 6), make([]H32, 6), make([]H32, 6), make([]H32, 6)
+	H.ents = make([][]EntRec, 6)
+	for id := 1; id <= 5; id++ {
+		tx, err := h.db.TxByID(ctx, &schema.TxRequest{Tx: uint64(id), EntriesSpec: &schema.EntriesSpec{KvEntriesSpec: &schema.EntryTypeSpec{Action: schema.EntryTypeAction_RAW_VALUE}}})
+		must(err)
+		H.hdr[id] = schema.TxHeaderFromProto(tx.Header)
+		H.alh[id], H.inner[id] = H.hdr[id].Alh(), innerHash(H.hdr[id])
+		H.leaf[id] = H.alh[id]
+		for _, e := range tx.Entries {
+			er := EntRec{Key: e.Key, MD: mdOf(e.Metadata), Val: e.Value, HVal: sha256.Sum256(e.Value)}
+			er.Dig = digestOf(1, er.Key, er.MD, er.Val)
+			H.ents[id] = append(H.ents[id], er)
+		}
+	}
+	H.leafHdr = H.hdr
+	forgedVal = append([]byte{database.PlainValuePrefix}, "forged"...)
+	G := mix("G", H, nil, 1, 0, k)
+	forgedVal = []byte("forged")
+	TH := mix("TH", H, G, k, k, 0)
+	TH.genProofs()
+	entryOf := func(w *World, id int) *schema.Entry {
+		e := w.ents[id][0]
+		return &schema.Entry{Tx: uint64(id), Key: e.Key[1:], Value: e.Val[1:], Revision: 1}
+	}
+	iproof := func(w *World, id int) *schema.InclusionProof {
+		return &schema.InclusionProof{Leaf: 0, Width: 1} // single-entry transactions: empty audit path
+	}
+	resp := func(proven int, hdr *store.TxHeader, w *World, d *store.DualProof) *schema.VerifiableEntry {
+		return &schema.VerifiableEntry{Entry: entryOf(w, proven), InclusionProof: iproof(w, proven),
+			VerifiableTx: &schema.VerifiableTx{Tx: &schema.Tx{Header: schema.TxHeaderToProto(hdr)}, DualProof: schema.DualProofToProto(d)}}
+	}
+	// honest: from state k-1 the client verifies tx k and reads the genuine value
+	h.trusted(k - 1)
+	e1, err := h.cl.VerifiedGetAt(ctx, []byte(keys[k]), k)
+	must(err)
+	if h.st.st.TxId != k || !bytes.Equal(h.st.st.TxHash, h.alh[k]) {
+		harnessBug("attackDemo: honest step did not advance the client to tx k")
+	}
+	h.svc.forge = func(in *schema.VerifiableGetRequest) *schema.VerifiableEntry {
+		s, at := int(in.ProveSinceTx), int(in.KeyRequest.AtTx)
+		switch {
+		case at > s && TH.dual[s][at] != nil:
+			return resp(at, TH.hdr[at], TH, TH.dual[s][at])
+		case at == k && s > k && TH.dualL[k][s] != nil:
+			return resp(k, G.hdr[k], G, TH.dualL[k][s]) // the rewritten transaction
+		}
+		return nil
+	}
+	var steps []string
+	for _, at := range []int{k + 1, k + 2} {
+		e, err := h.cl.VerifiedGetAt(ctx, []byte(keys[at]), uint64(at))
+		steps = append(steps, fmt.Sprintf("VerifiedGetAt(%s,%d) -> %v, client state tx=%d", keys[at], at, err, h.st.st.TxId))
+		_ = e
+		if err != nil {
+			c.Set("D_attack_demo", "rejected at "+steps[len(steps)-1])
+			return
+		}
+	}
+	e2, err := h.cl.VerifiedGetAt(ctx, []byte(keys[k]), k)
+	steps = append(steps, fmt.Sprintf("VerifiedGetAt(%s,%d) -> value %q err=%v", keys[k], k, e2.GetValue(), err))
+	c.Set("D_attack_demo", steps)
+	if err == nil && !bytes.Equal(e1.Value, e2.Value) {
+		viol(fmt.Sprintf("client-accepts-equivocation api=client.VerifiedGetAt case=src=tgtBl key=%s tx=%d first=%q later=%q", keys[k], k, e1.Value, e2.Value),
+			fmt.Sprintf("one client session (real pkg/client, state service in memory): VerifiedGetAt(%s,%d) from trusted tx %d returned %q and advanced the state to tx %d. A malicious server then answered "+
+				"VerifiedGetAt for tx %d and tx %d with headers whose BlRoot holds a REWRITTEN tx %d as leaf %d (linear chain untouched) - both verified - and finally VerifiedGetAt(%s,%d) returned %q, verified against the client's state. Steps: %v",
+				keys[k], k, k-1, e1.Value, k, k+1, k+2, k, k, keys[k], k, e2.Value, steps), map[string]any{"client": true})
+	}
+}
+
+var panicKinds = map[string]bool{}
 
 func (h *dbHist) report() {
 	for k, v := range h.stats {
